@@ -53,7 +53,8 @@ def _cases(shard):
         K = st.integers(0, 24)
         V = st.integers(0, 9)
         op = lambda *a: st.tuples(*[st.just(x) if isinstance(x, str) else x for x in a]).map(list)
-        boom = st.integers(0, 8)
+        # 0 = no comparison raises; otherwise the n-th one does (bulk operations make dozens of comparisons)
+        boom = st.one_of(st.just(0), st.just(0), st.integers(0, 8), st.integers(5, 40))
         if is_map:
             ops = [op('set', K, V, boom), op('set', K, V, boom), op('set', K, V, boom), op('del', K, boom),
                    op('del', K, boom), op('setdefault', K, V, boom), op('pop', K, boom), op('popd', K, V, boom),
